@@ -94,7 +94,7 @@ def _frame_origin(tb):
         fn = os.path.abspath(fs.filename)
         if fn.startswith(REPO + os.sep):
             last = ('repo', '%s:%s' % (os.path.relpath(fn, REPO), fs.name))
-        elif fn.startswith(VERIF + os.sep):
+        elif fn.startswith(VERIF + os.sep) and not fn.endswith(os.sep + 'rngtap.py'):   # the tap only forwards to numpy
             last = ('harness', '%s:%s' % (os.path.relpath(fn, VERIF), fs.name))
     return last or ('harness', '?')
 
